@@ -18,6 +18,7 @@ Lemma terminate_spec : terminate_clears_everything = true. Proof. vm_compute. re
 Lemma stop_threads_spec : stop_handler_threads_joins_all_four = true. Proof. vm_compute. reflexivity. Qed.
 Lemma stop_join_spec : stop_and_join_obeys_its_argument = true. Proof. vm_compute. reflexivity. Qed.
 Lemma pb_mask_spec : progress_bar_thread_started_under_mask = true. Proof. vm_compute. reflexivity. Qed.
+Lemma insights_mask_spec : insights_manager_started_under_mask = true. Proof. vm_compute. reflexivity. Qed.
 Lemma map_terminates_spec : map_call_terminates_on_any_exception = true. Proof. vm_compute. reflexivity. Qed.
 
 (* C05 / C17: whatever happens inside -- signals, nested blocks, exceptions -- the SIGINT handler after a program is
@@ -82,7 +83,7 @@ Theorem clean_after_every_exit_path (hist : list pop) (o : pop) (l0 : ledger) :
   clean (lstep (fold_left lstep hist l0) o).
 Proof.
   intros H. set (l := fold_left lstep hist l0). unfold clean, lstep.
-  rewrite terminate_spec, stop_threads_spec, map_terminates_spec, stop_join_spec, pb_mask_spec,
+  rewrite terminate_spec, stop_threads_spec, map_terminates_spec, stop_join_spec, pb_mask_spec, insights_mask_spec,
     protected_spec, touched_spec, handle_exception_spec.
   destruct H as [H|[H|[H|[H|H]]]]; subst o; cbn; auto.
 Qed.
